@@ -120,6 +120,15 @@ func (r *validationResponseHandler) HandleValidationResponse(
 		if r.siep.CanStaleOnError(ctx.Freshness, storedCC, ctx.CCReq) {
 			// RFC 9111 §4.2.4 Serving Stale Responses
 			// RFC 9111 §4.3.3 Handling Validation Responses (5xx errors)
+			// The validation did not succeed: the fields named by a qualified
+			// no-cache are not replayed (RFC 9111 §5.2.2.4).
+			noCacheRaw, _ := storedCC.NoCache()
+			noCacheFields, noCacheQualified := noCacheRaw.Value()
+			if noCacheQualified {
+				for field := range noCacheFields {
+					ctx.Stored.Data.Header.Del(field)
+				}
+			}
 			SetAgeHeader(ctx.Stored.Data, r.clock, ctx.Freshness.Age)
 			CacheStatusStale.ApplyTo(ctx.Stored.Data.Header)
 			r.l.LogCacheStaleIfError(req, ctx.URLKey, ctx.ToMisc(ccResp))
